@@ -1669,10 +1669,7 @@ class Stream(AbstractStream):
         if hasattr(imol, '_phase'):
             if isinstance(imol._phase, tmo._phase.LockedPhase):
                 raise RuntimeError('phase is locked; stream cannot be unlinked')
-            else:
-                imol._phase = imol._phase.copy()
-        imol._data_cache.clear()
-        imol.data = imol.data.copy()
+        self._imol = imol.copy() # Proxies share the indexer itself, not only its data
         self._thermal_condition = self._thermal_condition.copy()
         self.reset_cache()
         
